@@ -1,0 +1,24 @@
+//go:build verif
+
+package alias
+
+// Contracts for govc (/verif). Comments only.
+//
+// Memory model used for the unsafe address arithmetic: every object occupies
+// the byte range [objbase, objbase+objsize); distinct objects occupy disjoint
+// ranges; a slice (obj, off, len, cap) lies inside its object.
+
+//@ pred overlaps(x, y) = len(x) > 0 && len(y) > 0 && sameobj(x, y) &&
+//@ |   off(x) < off(y) + len(y) && off(y) < off(x) + len(x)
+
+//@ func AnyOverlap
+//@ props C53
+//@ pure
+//@ ensures iff(result, overlaps(x, y))
+//@ canary ensures iff(result, len(x) > 0 && len(y) > 0 && sameobj(x, y))
+
+//@ func InexactOverlap
+//@ props C53
+//@ pure
+//@ ensures iff(result, overlaps(x, y) && off(x) != off(y))
+//@ canary ensures iff(result, overlaps(x, y))
